@@ -70,7 +70,9 @@ def _mixed(draw, nmax):
             v['skew'] = draw(st.sampled_from([1.0, 2.0, 3.5, 10.0, 0.5, 0.1, 25.0, 1000.0]))
         else:
             v.pop('skew', None)
-        return {'kind': 'pipeline', 'v': v}
+        # an earlier run in the same process with another skew (weights must not be remembered)
+        prior = draw(st.sampled_from([None, 1.0, 4.0, 0.25]))
+        return {'kind': 'pipeline', 'v': v, 'prior_skew': prior}
     return draw(_case(nmax))
 
 
@@ -124,6 +126,9 @@ def run_pipeline(case):
     v = case['v']
     n2 = v['n1'] if v['mp'] == 'sm' else v['n2']
     s = float(v.get('skew', 1.0))
+    if case.get('prior_skew') is not None:
+        w = dict(v, skew=case['prior_skew'])
+        genargs.run_generator(genargs.build_argv(w, genargs.fresh_outdir('prior')), v['seed'])
     seen = []
     orig = np.random.choice
 
@@ -148,7 +153,8 @@ def run_pipeline(case):
                             'weights (skew %r)' % s)
         check_weights(p, n2, s, 'weights used by Generator(-mp %s -skew %r)' % (v['mp'], s))
     return Result(n2 >= 3 and s != 1, ['pipeline', 'mp=' + v['mp'],
-                                       'skew_given' if 'skew' in v else 'skew_default'])
+                                       'skew_given' if 'skew' in v else 'skew_default']
+                  + (['after_prior_run'] if case.get('prior_skew') is not None else []))
 
 
 def run_case(case):
